@@ -1,5 +1,1370 @@
 import Astria.Conductor.Model
-/- Theorems for area `executor` (stub). -/
+import Astria.Conductor.Spec
+/-
+  Theorems about the executor model, for ALL delivery sequences (C10).
+
+  Part A  every history accepted by the acceptor `Mon` (Spec.lean) has the C10 properties;
+  Part B  the executor model produces only accepted histories (simulation invariant);
+  Part C  single-step facts about deliveries that are not the expected height;
+  Part D  `BlockCache`.
+-/
 namespace Astria.Conductor
+
+/-- Hypotheses on the execution session: what `ExecutionSession::try_from_raw` /
+    `State::try_from_execution_session` guarantee (`firm0 ≤ soft0`, `R ≤ firm0 + 1`), a
+    sequencer start height of at least 1, and — for a firm-only conductor — a rollup whose soft
+    head is its firm block (otherwise the rollup refuses the very first `ExecuteBlock`). -/
+structure Cfg.WF (cfg : Cfg) : Prop where
+  firm_le_soft : cfg.firm0 ≤ cfg.soft0
+  start_ok : cfg.rollupStart ≤ cfg.firm0 + 1
+  seq_pos : 1 ≤ cfg.seqStart
+  firmOnly_eq : cfg.mode = .firmOnly → cfg.firm0 = cfg.soft0
+
+/-! ## Part A: accepted histories -/
+
+section lists
+
+theorem execCalls_append (a b : List Rpc) : execCalls (a ++ b) = execCalls a ++ execCalls b := by
+  induction a with
+  | nil => rfl
+  | cons r rs ih =>
+    cases r with
+    | exec seq p res => cases res <;> simp [execCalls, ih]
+    | update f s c res => simp [execCalls, ih]
+    | get n res => simp [execCalls, ih]
+
+theorem execRequests_append (a b : List Rpc) : execRequests (a ++ b) = execRequests a + execRequests b := by
+  induction a with
+  | nil => simp [execRequests]
+  | cons r rs ih =>
+    cases r with
+    | exec seq p res => simp [execRequests, ih]; omega
+    | update f s c res => simp [execRequests, ih]
+    | get n res => simp [execRequests, ih]
+
+theorem updates_append (a b : List Rpc) : updates (a ++ b) = updates a ++ updates b := by
+  induction a with
+  | nil => rfl
+  | cons r rs ih =>
+    cases r with
+    | exec seq p res => simp [updates, ih]
+    | update f s c res => simp [updates, ih]
+    | get n res => simp [updates, ih]
+
+theorem lastId_concat (p : Nat) (cs : List ExecCall) (c : ExecCall) : lastId p (cs ++ [c]) = c.blk.id := by
+  induction cs generalizing p with
+  | nil => rfl
+  | cons x xs ih => simp [lastId, ih]
+
+theorem chained_concat (p : Nat) (cs : List ExecCall) (c : ExecCall) :
+    Chained p (cs ++ [c]) ↔ Chained p cs ∧ c.parent = lastId p cs ∧ c.blk.parent = lastId p cs := by
+  induction cs generalizing p with
+  | nil => simp [Chained, lastId]
+  | cons x xs ih => simp [Chained, lastId, ih, and_assoc]
+
+theorem lastCommit_concat (c0 : Commit) (cs : List Commit) (c : Commit) : lastCommit c0 (cs ++ [c]) = c := by
+  induction cs generalizing c0 with
+  | nil => rfl
+  | cons x xs ih => simp [lastCommit, ih]
+
+theorem monotone_concat (c0 : Commit) (cs : List Commit) (c : Commit) :
+    Monotone c0 (cs ++ [c]) ↔ Monotone c0 cs ∧ (lastCommit c0 cs).firm.number ≤ c.firm.number
+      ∧ (lastCommit c0 cs).soft.number ≤ c.soft.number ∧ c.firm.number ≤ c.soft.number := by
+  induction cs generalizing c0 with
+  | nil => simp [Monotone, lastCommit]
+  | cons x xs ih => simp [Monotone, lastCommit, ih, and_assoc]
+
+/-- Index form of `Chained`: call `k+1` names the block produced by call `k` as its parent. -/
+theorem chained_index (p : Nat) (cs : List ExecCall) (h : Chained p cs) (k : Nat) (hk : k + 1 < cs.length) :
+    cs[k + 1].parent = cs[k].blk.id := by
+  induction cs generalizing p k with
+  | nil => simp at hk
+  | cons x xs ih =>
+    obtain ⟨_, _, hrest⟩ := h
+    cases k with
+    | zero =>
+      cases xs with
+      | nil => simp at hk
+      | cons y ys => exact hrest.1
+    | succ k =>
+      have : k + 1 < xs.length := by simpa using hk
+      simpa using ih x.blk.id hrest k this
+
+end lists
+
+/-- What is known about the acceptor after it consumed the RPCs `pre`. -/
+structure MonInv (cfg : Cfg) (m : Mon) (pre : List Rpc) : Prop where
+  next_eq : m.next = nextSeq cfg cfg.soft0 + (execCalls pre).length
+  seqs : (execCalls pre).map (·.seq) = List.range' (nextSeq cfg cfg.soft0) (execCalls pre).length
+  answered : execRequests pre = (execCalls pre).length
+  chained : Chained (initSoft cfg).id (execCalls pre)
+  head_id : m.head.id = lastId (initSoft cfg).id (execCalls pre)
+  mono : Monotone (initCommit cfg) (updates pre)
+  commit : m.c = lastCommit (initCommit cfg) (updates pre)
+  known : ∀ b ∈ m.known, b ∈ initBlocks cfg ∨ ∃ c ∈ execCalls pre, c.blk = b
+  blkseq : ∀ c ∈ execCalls pre, c.blk.seq = c.seq
+
+theorem monInv_init (cfg : Cfg) : MonInv cfg (Mon.init cfg) [] := by
+  constructor <;> simp [Mon.init, execCalls, execRequests, updates, Chained, lastId, Monotone, lastCommit]
+
+theorem stepRpc_inv (cfg : Cfg) (m m' : Mon) (pre : List Rpc) (r : Rpc) (hi : MonInv cfg m pre)
+    (h : m.stepRpc r = some m') : MonInv cfg m' (pre ++ [r]) := by
+  cases r with
+  | exec seq parent res =>
+    cases res with
+    | rej e => simp [Mon.stepRpc] at h
+    | ok b =>
+      simp only [Mon.stepRpc] at h
+      split at h
+      · rename_i hc
+        obtain ⟨h1, h2, h3, h4, h5, h6, h7⟩ := hc
+        injection h with h; subst h
+        have hcalls : execCalls (pre ++ [Rpc.exec seq parent (.ok b)]) = execCalls pre ++ [⟨seq, parent, b⟩] := by
+          simp [execCalls_append, execCalls]
+        have hups : updates (pre ++ [Rpc.exec seq parent (.ok b)]) = updates pre := by
+          simp [updates_append, updates]
+        constructor
+        · simp [hcalls, hi.next_eq]; omega
+        · rw [hcalls]
+          simp only [List.map_append, List.map_cons, List.map_nil, List.length_append, List.length_cons,
+            List.length_nil, Nat.zero_add, List.range'_1_concat, hi.seqs]
+          congr 2
+          rw [h1, hi.next_eq]
+        · simp [execRequests_append, execRequests, hcalls, hi.answered]
+        · rw [hcalls, chained_concat]
+          refine ⟨hi.chained, ?_, ?_⟩
+          · simp only; rw [h2, hi.head_id]
+          · simp only; rw [h5, h2, hi.head_id]
+        · simp only [hcalls, lastId_concat]
+        · rw [hups]; exact hi.mono
+        · simp only [hups]; exact hi.commit
+        · intro k hk
+          simp only [List.mem_cons] at hk
+          rcases hk with hk | hk
+          · right; exact ⟨⟨seq, parent, b⟩, by simp [hcalls], hk.symm⟩
+          · rcases hi.known k hk with h | ⟨c, hc, hcb⟩
+            · left; exact h
+            · right; exact ⟨c, by simp [hcalls, hc], hcb⟩
+        · intro c hc
+          rw [hcalls] at hc
+          simp only [List.mem_append, List.mem_singleton] at hc
+          rcases hc with hc | hc
+          · exact hi.blkseq c hc
+          · subst hc; exact h6
+      · simp at h
+  | update f s cel res =>
+    cases res with
+    | rej e => simp [Mon.stepRpc] at h
+    | ok u =>
+      cases u
+      simp only [Mon.stepRpc] at h
+      split at h
+      · rename_i hc
+        obtain ⟨h1, h2, h3, h4, h5⟩ := hc
+        injection h with h; subst h
+        have hcalls : execCalls (pre ++ [Rpc.update f s cel (.ok ())]) = execCalls pre := by
+          simp [execCalls_append, execCalls]
+        have hups : updates (pre ++ [Rpc.update f s cel (.ok ())]) = updates pre ++ [⟨f, s, cel⟩] := by
+          simp [updates_append, updates]
+        constructor
+        · simp only [hcalls]; exact hi.next_eq
+        · simp only [hcalls]; exact hi.seqs
+        · simp [execRequests_append, execRequests, hcalls, hi.answered]
+        · simp only [hcalls]; exact hi.chained
+        · simp only [hcalls]; exact hi.head_id
+        · rw [hups, monotone_concat, ← hi.commit]
+          exact ⟨hi.mono, h4, h5, h3⟩
+        · simp only [hups, lastCommit_concat]
+        · intro k hk
+          rcases hi.known k hk with h | ⟨c, hc, hcb⟩
+          · left; exact h
+          · right; exact ⟨c, by simp [hcalls, hc], hcb⟩
+        · intro c hc
+          rw [hcalls] at hc
+          exact hi.blkseq c hc
+      · simp at h
+  | get n res =>
+    cases res with
+    | rej e => simp [Mon.stepRpc] at h
+    | ok b =>
+      simp only [Mon.stepRpc] at h
+      split at h
+      · injection h with h; subst h
+        have hcalls : execCalls (pre ++ [Rpc.get n (.ok b)]) = execCalls pre := by
+          simp [execCalls_append, execCalls]
+        have hups : updates (pre ++ [Rpc.get n (.ok b)]) = updates pre := by
+          simp [updates_append, updates]
+        constructor
+        · simp only [hcalls]; exact hi.next_eq
+        · simp only [hcalls]; exact hi.seqs
+        · simp [execRequests_append, execRequests, hcalls, hi.answered]
+        · simp only [hcalls]; exact hi.chained
+        · simp only [hcalls]; exact hi.head_id
+        · rw [hups]; exact hi.mono
+        · simp only [hups]; exact hi.commit
+        · intro k hk
+          rcases hi.known k hk with h | ⟨c, hc, hcb⟩
+          · left; exact h
+          · right; exact ⟨c, by simp [hcalls, hc], hcb⟩
+        · intro c hc
+          rw [hcalls] at hc
+          exact hi.blkseq c hc
+      · simp at h
+
+theorem stepRpcs_inv (cfg : Cfg) (m m' : Mon) (pre rs : List Rpc) (hi : MonInv cfg m pre)
+    (h : m.stepRpcs rs = some m') : MonInv cfg m' (pre ++ rs) := by
+  induction rs generalizing m pre with
+  | nil => simp [Mon.stepRpcs] at h; subst h; simpa using hi
+  | cons r rs ih =>
+    simp only [Mon.stepRpcs, Option.bind_eq_some_iff] at h
+    obtain ⟨m1, h1, h2⟩ := h
+    have := ih m1 (pre ++ [r]) (stepRpc_inv cfg m m1 pre r hi h1) h2
+    simpa using this
+
+theorem stepEvent_rpcs (cfg : Cfg) (m m' : Mon) (e : Event) (h : m.stepEvent cfg e = some m') :
+    m.stepRpcs e.rpcs = some m' := by
+  obtain ⟨op, res, rpcs⟩ := e
+  cases op with
+  | soft hh =>
+    simp only [Mon.stepEvent] at h
+    split at h
+    · split at h
+      · rename_i hc; injection h with h; subst h; simp [hc.2, Mon.stepRpcs]
+      · simp at h
+    · split at h
+      · split at h
+        · rename_i hc; injection h with h; subst h; simp [hc.2, Mon.stepRpcs]
+        · simp at h
+      · split at h
+        · split at h
+          · exact h
+          · simp at h
+        · simp at h
+  | firm hh cel =>
+    simp only [Mon.stepEvent] at h
+    split at h
+    · split at h
+      · rename_i hc; injection h with h; subst h; simp [hc.2, Mon.stepRpcs]
+      · simp at h
+    · split at h
+      · split at h
+        · split at h
+          · exact h
+          · simp at h
+        · simp at h
+      · split at h
+        · split at h
+          · exact h
+          · simp at h
+        · split at h
+          · exact h
+          · simp at h
+        · simp at h
+
+theorem stepEvent_inv (cfg : Cfg) (m m' : Mon) (pre : List Rpc) (e : Event) (hi : MonInv cfg m pre)
+    (h : m.stepEvent cfg e = some m') : MonInv cfg m' (pre ++ e.rpcs) :=
+  stepRpcs_inv cfg m m' pre e.rpcs hi (stepEvent_rpcs cfg m m' e h)
+
+theorem allRpcs_cons (e : Event) (evs : List Event) : allRpcs (e :: evs) = e.rpcs ++ allRpcs evs := by
+  simp [allRpcs]
+
+theorem allRpcs_append (a b : List Event) : allRpcs (a ++ b) = allRpcs a ++ allRpcs b := by
+  simp [allRpcs]
+
+theorem stepEvents_inv (cfg : Cfg) (m m' : Mon) (pre : List Rpc) (evs : List Event) (hi : MonInv cfg m pre)
+    (h : m.stepEvents cfg evs = some m') : MonInv cfg m' (pre ++ allRpcs evs) := by
+  induction evs generalizing m pre with
+  | nil => simp [Mon.stepEvents] at h; subst h; simpa [allRpcs] using hi
+  | cons e es ih =>
+    simp only [Mon.stepEvents, Option.bind_eq_some_iff] at h
+    obtain ⟨m1, h1, h2⟩ := h
+    have := ih m1 (pre ++ e.rpcs) (stepEvent_inv cfg m m1 pre e hi h1) h2
+    simpa [allRpcs_cons] using this
+
+theorem stepEvents_append (cfg : Cfg) (m : Mon) (a b : List Event) :
+    m.stepEvents cfg (a ++ b) = (m.stepEvents cfg a).bind (fun m' => m'.stepEvents cfg b) := by
+  induction a generalizing m with
+  | nil => simp [Mon.stepEvents]
+  | cons e es ih =>
+    simp only [List.cons_append, Mon.stepEvents]
+    cases m.stepEvent cfg e with
+    | none => simp
+    | some m1 => simp [ih]
+
+/-- Splitting an accepted history at an event: the acceptor state before it, with its invariant,
+    and the state after it. -/
+theorem accepted_split (cfg : Cfg) (before after : List Event) (e : Event)
+    (h : Accepted cfg (before ++ e :: after)) :
+    ∃ m m1, MonInv cfg m (allRpcs before) ∧ m.stepEvent cfg e = some m1
+      ∧ MonInv cfg m1 (allRpcs before ++ e.rpcs) := by
+  unfold Accepted at h
+  rw [stepEvents_append, Option.isSome_iff_exists] at h
+  obtain ⟨mf, h⟩ := h
+  simp only [Option.bind_eq_some_iff, Mon.stepEvents] at h
+  obtain ⟨m, hm, m1, hm1, _⟩ := h
+  have hi := stepEvents_inv cfg (Mon.init cfg) m [] before (monInv_init cfg) hm
+  simp only [List.nil_append] at hi
+  exact ⟨m, m1, hi, hm1, stepEvent_inv cfg m m1 _ e hi hm1⟩
+
+/-- What the acceptor demands of a single delivery, in terms of its own state. -/
+theorem stepEvent_facts (cfg : Cfg) (m m' : Mon) (e : Event) (h : m.stepEvent cfg e = some m') :
+    (∀ hh, e.op = .soft hh → hh ≠ m.next →
+        e.rpcs = [] ∧ (hh < m.next → e.res = .dropped) ∧ (hh > m.next → e.res.isErr = true)) ∧
+    (∀ hh c, e.op = .firm hh c → hh ≠ nextSeq cfg m.c.firm.number → e.rpcs = [] ∧ e.res.isErr = true) ∧
+    (∀ hh c, e.op = .firm hh c → ∀ f s cc r, Rpc.update f s cc r ∈ e.rpcs →
+        f.seq = hh ∧ cc = c ∧ f ∈ m'.known) := by
+  obtain ⟨op, res, rpcs⟩ := e
+  cases op with
+  | soft hh =>
+    refine ⟨?_, by simp, by simp⟩
+    intro h' heq hne
+    injection heq with heq; subst heq
+    simp only [Mon.stepEvent] at h
+    split at h
+    · rename_i hlt
+      split at h
+      · rename_i hc
+        exact ⟨hc.2, fun _ => hc.1, fun hgt => by omega⟩
+      · simp at h
+    · rename_i hnlt
+      split at h
+      · rename_i hgt
+        split at h
+        · rename_i hc
+          exact ⟨hc.2, fun hlt => by omega, fun _ => hc.1⟩
+        · simp at h
+      · omega
+  | firm hh cel =>
+    refine ⟨by simp, ?_, ?_⟩
+    · intro h' c heq hne
+      injection heq with heq1 heq2; subst heq1
+      simp only [Mon.stepEvent] at h
+      split at h
+      · split at h
+        · rename_i hc; exact ⟨hc.2, hc.1⟩
+        · simp at h
+      · rename_i hn; exact absurd hne hn
+    · intro h' c heq f s cc r hmem
+      injection heq with heq1 heq2; subst heq1; subst heq2
+      simp only [Mon.stepEvent] at h
+      split at h
+      · split at h
+        · rename_i hc; simp [hc.2] at hmem
+        · simp at h
+      · split at h
+        · split at h
+          · rename_i _ seq p r' f' s' c' u'
+            split at h
+            · rename_i hc
+              obtain ⟨_, hseq, hfs, hcc⟩ := hc
+              simp only [List.mem_cons, List.mem_nil_iff, or_false, reduceCtorEq, false_or] at hmem
+              injection hmem with e1 e2 e3 e4
+              subst e1; subst e2; subst e3; subst e4
+              -- unfold the two RPC steps
+              simp only [Mon.stepRpcs, Option.bind_eq_some_iff] at h
+              obtain ⟨m1, hx, m2, hu, hm2⟩ := h
+              injection hm2 with hm2; subst hm2
+              cases r' with
+              | rej e => simp [Mon.stepRpc] at hx
+              | ok b =>
+                simp only [Mon.stepRpc] at hx
+                split at hx
+                · rename_i hxc
+                  injection hx with hx; subst hx
+                  cases r with
+                  | rej e => simp [Mon.stepRpc] at hu
+                  | ok uu =>
+                    cases uu
+                    simp only [Mon.stepRpc] at hu
+                    split at hu
+                    · rename_i huc
+                      injection hu with hu; subst hu
+                      refine ⟨?_, hcc, huc.1⟩
+                      have : f = b := by rw [hfs]; exact huc.2.1
+                      rw [this, hxc.2.2.2.2.2.1, hseq]
+                    · simp at hu
+                · simp at hx
+            · simp at h
+          · simp at h
+        · split at h
+          · rename_i _ f' s' c' u'
+            split at h
+            · rename_i hc
+              obtain ⟨_, _, hseq, hcc⟩ := hc
+              simp only [List.mem_cons, List.mem_nil_iff, or_false] at hmem
+              injection hmem with e1 e2 e3 e4
+              subst e1; subst e2; subst e3; subst e4
+              simp only [Mon.stepRpcs, Option.bind_eq_some_iff] at h
+              obtain ⟨m1, hu, hm1⟩ := h
+              injection hm1 with hm1; subst hm1
+              cases r with
+              | rej e => simp [Mon.stepRpc] at hu
+              | ok uu =>
+                cases uu
+                simp only [Mon.stepRpc] at hu
+                split at hu
+                · rename_i huc
+                  injection hu with hu; subst hu
+                  exact ⟨hseq, hcc, huc.1⟩
+                · simp at hu
+            · simp at h
+          · rename_i _ n g f' s' c' u'
+            split at h
+            · rename_i hc
+              obtain ⟨_, _, hseq, hcc, _, _⟩ := hc
+              simp only [List.mem_cons, List.mem_nil_iff, or_false, reduceCtorEq, false_or] at hmem
+              injection hmem with e1 e2 e3 e4
+              subst e1; subst e2; subst e3; subst e4
+              simp only [Mon.stepRpcs, Option.bind_eq_some_iff] at h
+              obtain ⟨m1, hg, m2, hu, hm2⟩ := h
+              injection hm2 with hm2; subst hm2
+              cases g with
+              | rej e => simp [Mon.stepRpc] at hg
+              | ok gb =>
+                simp only [Mon.stepRpc] at hg
+                split at hg
+                · injection hg with hg; subst hg
+                  cases r with
+                  | rej e => simp [Mon.stepRpc] at hu
+                  | ok uu =>
+                    cases uu
+                    simp only [Mon.stepRpc] at hu
+                    split at hu
+                    · rename_i huc
+                      injection hu with hu; subst hu
+                      exact ⟨hseq, hcc, huc.1⟩
+                    · simp at hu
+                · simp at hg
+            · simp at h
+          · simp at h
+
+/-- (A1) In an accepted history every `ExecuteBlock` request was answered, the calls carry the
+    consecutive sequencer heights `start, start+1, …`, each call names the block produced by the
+    previous call as parent (the first one the initial soft block), and each produced block
+    records the height it was executed from. -/
+theorem accepted_exec_in_order (cfg : Cfg) (evs : List Event) (h : Accepted cfg evs) :
+    execRequests (allRpcs evs) = (execCalls (allRpcs evs)).length ∧
+    (execCalls (allRpcs evs)).map (·.seq)
+      = List.range' (nextSeq cfg cfg.soft0) (execCalls (allRpcs evs)).length ∧
+    Chained (initSoft cfg).id (execCalls (allRpcs evs)) ∧
+    (∀ c ∈ execCalls (allRpcs evs), c.blk.seq = c.seq) := by
+  unfold Accepted at h
+  rw [Option.isSome_iff_exists] at h
+  obtain ⟨m, hm⟩ := h
+  have hi := stepEvents_inv cfg (Mon.init cfg) m [] evs (monInv_init cfg) hm
+  simp only [List.nil_append] at hi
+  exact ⟨hi.answered, hi.seqs, hi.chained, hi.blkseq⟩
+
+/-- (A2) In an accepted history the commitment states never decrease and firm ≤ soft. -/
+theorem accepted_commitments (cfg : Cfg) (evs : List Event) (h : Accepted cfg evs) :
+    Monotone (initCommit cfg) (updates (allRpcs evs)) := by
+  unfold Accepted at h
+  rw [Option.isSome_iff_exists] at h
+  obtain ⟨m, hm⟩ := h
+  have hi := stepEvents_inv cfg (Mon.init cfg) m [] evs (monInv_init cfg) hm
+  simp only [List.nil_append] at hi
+  exact hi.mono
+
+/-- (A3) In an accepted history a delivery that is not the expected one causes no RPC at all:
+    a soft block other than `start + (number of ExecuteBlock calls so far)` — dropped silently if
+    below, an error if above —, a firm block other than the height following the current firm
+    commitment — an error. -/
+theorem accepted_not_executed (cfg : Cfg) (before after : List Event) (e : Event)
+    (h : Accepted cfg (before ++ e :: after)) :
+    (∀ hh, e.op = .soft hh →
+        hh ≠ nextSeq cfg cfg.soft0 + (execCalls (allRpcs before)).length →
+        e.rpcs = [] ∧
+        (hh < nextSeq cfg cfg.soft0 + (execCalls (allRpcs before)).length → e.res = .dropped) ∧
+        (hh > nextSeq cfg cfg.soft0 + (execCalls (allRpcs before)).length → e.res.isErr = true)) ∧
+    (∀ hh c, e.op = .firm hh c →
+        hh ≠ nextSeq cfg (lastCommit (initCommit cfg) (updates (allRpcs before))).firm.number →
+        e.rpcs = [] ∧ e.res.isErr = true) := by
+  obtain ⟨m, m1, hi, hstep, _⟩ := accepted_split cfg before after e h
+  obtain ⟨f1, f2, _⟩ := stepEvent_facts cfg m m1 e hstep
+  rw [← hi.next_eq, ← hi.commit]
+  exact ⟨f1, f2⟩
+
+/-- (A4) In an accepted history, every `UpdateCommitmentState` caused by a firm delivery for
+    sequencer height `hh` names as firm a block that was executed from height `hh`: one of the
+    initial blocks, or the answer to an `ExecuteBlock` call of this history made for `hh`; and
+    it carries the delivery's Celestia height. -/
+theorem accepted_firm_names_executed (cfg : Cfg) (before after : List Event) (e : Event)
+    (h : Accepted cfg (before ++ e :: after)) (hh c : Nat) (hop : e.op = .firm hh c)
+    (f s : Blk) (cc : Nat) (r : Res Unit) (hmem : Rpc.update f s cc r ∈ e.rpcs) :
+    f.seq = hh ∧ cc = c ∧
+    (f ∈ initBlocks cfg ∨
+      ∃ call ∈ execCalls (allRpcs (before ++ e :: after)), call.blk = f ∧ call.seq = hh) := by
+  obtain ⟨m, m1, hi, hstep, hi1⟩ := accepted_split cfg before after e h
+  obtain ⟨_, _, f3⟩ := stepEvent_facts cfg m m1 e hstep
+  obtain ⟨hseq, hcc, hk⟩ := f3 hh c hop f s cc r hmem
+  refine ⟨hseq, hcc, ?_⟩
+  rcases hi1.known f hk with hinit | ⟨call, hcall, hblk⟩
+  · left; exact hinit
+  · right
+    refine ⟨call, ?_, hblk, ?_⟩
+    · simp only [allRpcs_append, allRpcs_cons, execCalls_append, List.mem_append]
+      simp only [execCalls_append, List.mem_append] at hcall
+      rcases hcall with hc | hc
+      · left; exact hc
+      · right; left; exact hc
+    · rw [← hi1.blkseq call hcall, hblk, hseq]
+
+/-! ## Part B: the executor model produces only accepted histories -/
+
+/-- The rollup's blocks form one chain of consecutive numbers, newest first. -/
+def ChainOk : List Blk → Prop
+  | [] => True
+  | [_] => True
+  | b :: b' :: rest => b.number = b'.number + 1 ∧ ChainOk (b' :: rest)
+
+theorem chainOk_lt (b : Blk) (l : List Blk) (h : ChainOk (b :: l)) : ∀ x ∈ l, x.number < b.number := by
+  induction l generalizing b with
+  | nil => simp
+  | cons b' rest ih =>
+    obtain ⟨heq, hrest⟩ := h
+    intro x hx
+    simp only [List.mem_cons] at hx
+    rcases hx with hx | hx
+    · subst hx; omega
+    · have := ih b' hrest x hx; omega
+
+theorem chainOk_exists (b : Blk) (l : List Blk) (h : ChainOk (b :: l)) (x : Blk) (hx : x ∈ b :: l)
+    (n : Nat) (h1 : x.number ≤ n) (h2 : n ≤ b.number) : ∃ z ∈ b :: l, z.number = n := by
+  induction l generalizing b with
+  | nil =>
+    simp only [List.mem_cons, List.not_mem_nil, or_false] at hx
+    subst hx
+    exact ⟨x, by simp, by omega⟩
+  | cons b' rest ih =>
+    obtain ⟨heq, hrest⟩ := h
+    by_cases hn : n = b.number
+    · exact ⟨b, by simp, hn.symm⟩
+    · have hx' : x ∈ b' :: rest := by
+        simp only [List.mem_cons] at hx
+        rcases hx with hx | hx
+        · subst hx; omega
+        · simpa using hx
+      obtain ⟨z, hz, hzn⟩ := ih b' hrest hx' (by omega)
+      exact ⟨z, List.mem_cons_of_mem _ hz, hzn⟩
+
+theorem pendLookup_insert (k k' : Nat) (v b : Blk) (l : List (Nat × Blk))
+    (h : pendLookup k (pendInsert k' v l) = some b) : (k = k' ∧ b = v) ∨ pendLookup k l = some b := by
+  induction l with
+  | nil =>
+    simp only [pendInsert, pendLookup] at h
+    split at h
+    · left; rename_i hk; injection h with h; exact ⟨hk, h.symm⟩
+    · simp at h
+  | cons e rest ih =>
+    obtain ⟨k2, v2⟩ := e
+    simp only [pendInsert] at h
+    split at h
+    · simp only [pendLookup] at h
+      split at h
+      · left; rename_i hk; injection h with h; exact ⟨hk, h.symm⟩
+      · right; simpa [pendLookup] using h
+    · split at h
+      · rename_i hk2
+        simp only [pendLookup] at h
+        split at h
+        · left; rename_i hk; injection h with h; exact ⟨hk, h.symm⟩
+        · right
+          rename_i hne
+          simp only [pendLookup]
+          rw [if_neg (by omega)]
+          exact h
+      · simp only [pendLookup] at h
+        split at h
+        · right; rename_i hk; simp [pendLookup, hk, h]
+        · rename_i hne
+          rcases ih h with h' | h'
+          · left; exact h'
+          · right; simp [pendLookup, hne, h']
+
+theorem pendLookup_erase_eq (k k' : Nat) (l : List (Nat × Blk)) :
+    pendLookup k (pendErase k' l) = if k = k' then none else pendLookup k l := by
+  induction l with
+  | nil => simp [pendErase, pendLookup]
+  | cons e rest ih =>
+    obtain ⟨k2, v2⟩ := e
+    unfold pendErase at ih ⊢
+    rw [List.filter_cons]
+    by_cases hk : k2 = k'
+    · subst hk
+      simp only [ne_eq, not_true_eq_false, decide_false, Bool.false_eq_true, if_false, ih, pendLookup]
+      by_cases hkk : k = k2
+      · simp [hkk]
+      · simp [hkk]
+    · simp only [ne_eq, hk, not_false_eq_true, decide_true, if_true, pendLookup, ih]
+      by_cases hkk : k = k2
+      · have : k ≠ k' := by omega
+        simp [hkk, hk]
+      · simp [hkk]
+
+theorem pendLookup_erase (k k' : Nat) (b : Blk) (l : List (Nat × Blk))
+    (h : pendLookup k (pendErase k' l) = some b) : pendLookup k l = some b := by
+  rw [pendLookup_erase_eq] at h
+  split at h
+  · simp at h
+  · exact h
+
+/-! ### evaluation of the rollup and of `update_commitment_state` when everything is in order -/
+
+theorem executeBlock_head (r : Rollup) (seq : Nat) :
+    r.executeBlock r.c.soft.id seq =
+      (.ok ⟨r.c.soft.number + 1, r.nextId, r.c.soft.id, seq⟩,
+       { r with blocks := ⟨r.c.soft.number + 1, r.nextId, r.c.soft.id, seq⟩ :: r.blocks,
+                nextId := r.nextId + 1 }) := by
+  simp [Rollup.executeBlock]
+
+theorem update_ok (r : Rollup) (f s : Blk) (cel : Nat) (hf : f ∈ r.blocks) (hs : s ∈ r.blocks)
+    (hfs : f.number ≤ s.number) (h1 : r.c.firm.number ≤ f.number) (h2 : r.c.soft.number ≤ s.number) :
+    r.update f s cel = (.ok ⟨f, s, cel⟩, { r with c := ⟨f, s, cel⟩ }) := by
+  unfold Rollup.update
+  rw [if_neg (by simp [hf, hs]), if_neg (by omega), if_neg (by omega)]
+
+theorem updateCommitment_ok (s : Sys) (u : Update)
+    (hf : u.firm s ∈ s.ru.blocks) (hs : u.soft s ∈ s.ru.blocks)
+    (hfs : (u.firm s).number ≤ (u.soft s).number)
+    (h1 : s.ru.c.firm.number ≤ (u.firm s).number) (h2 : s.ru.c.soft.number ≤ (u.soft s).number)
+    (hacc : stateAccepts s.cfg u.level ⟨u.firm s, u.soft s, u.cel s⟩ = true) :
+    updateCommitment s u =
+      ({ s with ru := { s.ru with c := ⟨u.firm s, u.soft s, u.cel s⟩ },
+                ex := { s.ex with c := ⟨u.firm s, u.soft s, u.cel s⟩ } },
+       .ok, [.update (u.firm s) (u.soft s) (u.cel s) (.ok ())]) := by
+  unfold updateCommitment
+  simp only
+  rw [if_neg (by omega), update_ok s.ru _ _ _ hf hs hfs h1 h2]
+  simp only [hacc, if_true]
+
+theorem executeSoft_inorder (s : Sys) (h : Nat) (heq : h = s.nextSoft) (hS : s.cfg.seqStart ≤ h)
+    (hsync : s.ru.c = s.ex.c) (hfirm : s.ex.c.firm ∈ s.ru.blocks)
+    (hfs : s.ex.c.firm.number ≤ s.ex.c.soft.number)
+    (hmap : s.cfg.rollupStart ≤ s.ex.c.soft.number + 2) :
+    executeSoft s h =
+      ({ s with
+          ru := { blocks := ⟨s.ex.c.soft.number + 1, s.ru.nextId, s.ex.c.soft.id, h⟩ :: s.ru.blocks,
+                  c := ⟨s.ex.c.firm, ⟨s.ex.c.soft.number + 1, s.ru.nextId, s.ex.c.soft.id, h⟩, s.ex.c.cel⟩,
+                  nextId := s.ru.nextId + 1 },
+          ex := { c := ⟨s.ex.c.firm, ⟨s.ex.c.soft.number + 1, s.ru.nextId, s.ex.c.soft.id, h⟩, s.ex.c.cel⟩,
+                  pending := pendInsert (h - s.cfg.seqStart + s.cfg.rollupStart)
+                    ⟨s.ex.c.soft.number + 1, s.ru.nextId, s.ex.c.soft.id, h⟩ s.ex.pending } },
+       ⟨.ok, [.exec h s.ex.c.soft.id (.ok ⟨s.ex.c.soft.number + 1, s.ru.nextId, s.ex.c.soft.id, h⟩),
+              .update s.ex.c.firm ⟨s.ex.c.soft.number + 1, s.ru.nextId, s.ex.c.soft.id, h⟩ s.ex.c.cel (.ok ())]⟩) := by
+  unfold executeSoft
+  simp only
+  rw [if_neg (by omega), if_neg (by omega)]
+  have hmapS : seqToRollup s.cfg h = some (h - s.cfg.seqStart + s.cfg.rollupStart) := by
+    unfold seqToRollup; rw [if_neg (by omega)]
+  rw [hmapS]
+  simp only
+  have hx := executeBlock_head s.ru h
+  rw [hsync] at hx
+  rw [hx]
+  simp only [ne_eq, not_true_eq_false, if_false]
+  rw [updateCommitment_ok _ (.onlySoft ⟨s.ex.c.soft.number + 1, s.ru.nextId, s.ex.c.soft.id, h⟩)]
+  · simp [Update.firm, Update.soft, Update.cel]
+  · simp [Update.firm, hfirm]
+  · simp [Update.soft]
+  · simp [Update.firm, Update.soft]; omega
+  · simp [Update.firm]
+  · simp [Update.soft]
+  · simp [stateAccepts, Update.level, Mode.withFirm, Mode.withSoft, mapOk, Update.soft]; exact decide_eq_true (by omega)
+
+
+theorem executeFirm_execute (s : Sys) (h cel : Nat) (heq : h = s.nextFirm) (hS : s.cfg.seqStart ≤ h)
+    (hshould : shouldExecuteFirm s.nextFirm s.nextSoft s.cfg.mode = true)
+    (hsync : s.ru.c = s.ex.c) (hfs : s.ex.c.firm = s.ex.c.soft)
+    (hmap : s.cfg.rollupStart ≤ s.ex.c.soft.number + 2) :
+    executeFirm s h cel =
+      ({ s with
+          ru := { blocks := ⟨s.ex.c.soft.number + 1, s.ru.nextId, s.ex.c.soft.id, h⟩ :: s.ru.blocks,
+                  c := ⟨⟨s.ex.c.soft.number + 1, s.ru.nextId, s.ex.c.soft.id, h⟩,
+                        ⟨s.ex.c.soft.number + 1, s.ru.nextId, s.ex.c.soft.id, h⟩, cel⟩,
+                  nextId := s.ru.nextId + 1 },
+          ex := { c := ⟨⟨s.ex.c.soft.number + 1, s.ru.nextId, s.ex.c.soft.id, h⟩,
+                        ⟨s.ex.c.soft.number + 1, s.ru.nextId, s.ex.c.soft.id, h⟩, cel⟩,
+                  pending := s.ex.pending } },
+       ⟨.ok, [.exec h s.ex.c.soft.id (.ok ⟨s.ex.c.soft.number + 1, s.ru.nextId, s.ex.c.soft.id, h⟩),
+              .update ⟨s.ex.c.soft.number + 1, s.ru.nextId, s.ex.c.soft.id, h⟩
+                ⟨s.ex.c.soft.number + 1, s.ru.nextId, s.ex.c.soft.id, h⟩ cel (.ok ())]⟩) := by
+  unfold executeFirm
+  simp only
+  rw [if_neg (by omega)]
+  have hmapS : seqToRollup s.cfg h = some (h - s.cfg.seqStart + s.cfg.rollupStart) := by
+    unfold seqToRollup; rw [if_neg (by omega)]
+  rw [hmapS]
+  simp only [hshould, if_true]
+  have hx := executeBlock_head s.ru h
+  rw [hsync] at hx
+  rw [hfs, hx]
+  simp only [ne_eq, not_true_eq_false, if_false]
+  rw [updateCommitment_ok _ (.toSame ⟨s.ex.c.soft.number + 1, s.ru.nextId, s.ex.c.soft.id, h⟩ cel)]
+  · simp [Update.firm, Update.soft, Update.cel]
+  · simp [Update.firm]
+  · simp [Update.soft]
+  · simp [Update.firm, Update.soft]
+  · simp [Update.firm, hfs]
+  · simp [Update.soft]
+  · simp [stateAccepts, Update.level, Mode.withFirm, Mode.withSoft, mapOk, Update.soft, Update.firm]
+    exact ⟨decide_eq_true (by omega), decide_eq_true (by omega)⟩
+
+theorem executeFirm_pending (s : Sys) (h cel : Nat) (b : Blk) (heq : h = s.nextFirm)
+    (hS : s.cfg.seqStart ≤ h)
+    (hshould : shouldExecuteFirm s.nextFirm s.nextSoft s.cfg.mode = false)
+    (hlook : pendLookup (h - s.cfg.seqStart + s.cfg.rollupStart) s.ex.pending = some b)
+    (hsync : s.ru.c = s.ex.c) (hb : b ∈ s.ru.blocks) (hsoft : s.ex.c.soft ∈ s.ru.blocks)
+    (hbs : b.number ≤ s.ex.c.soft.number) (hfb : s.ex.c.firm.number ≤ b.number)
+    (hmap : s.cfg.rollupStart ≤ b.number + 1) :
+    executeFirm s h cel =
+      ({ s with
+          ru := { s.ru with c := ⟨b, s.ex.c.soft, cel⟩ },
+          ex := { c := ⟨b, s.ex.c.soft, cel⟩,
+                  pending := pendErase (h - s.cfg.seqStart + s.cfg.rollupStart) s.ex.pending } },
+       ⟨.ok, [.update b s.ex.c.soft cel (.ok ())]⟩) := by
+  unfold executeFirm
+  simp only
+  rw [if_neg (by omega)]
+  have hmapS : seqToRollup s.cfg h = some (h - s.cfg.seqStart + s.cfg.rollupStart) := by
+    unfold seqToRollup; rw [if_neg (by omega)]
+  rw [hmapS]
+  simp only [hshould, Bool.false_eq_true, if_false, hlook]
+  rw [updateCommitment_ok _ (.onlyFirm b cel)]
+  · simp [Update.firm, Update.soft, Update.cel]
+  · simp [Update.firm, hb]
+  · simp [Update.soft, hsoft]
+  · simp [Update.firm, Update.soft, hbs]
+  · simp [Update.firm, hsync, hfb]
+  · simp [Update.soft, hsync]
+  · simp [stateAccepts, Update.level, Mode.withFirm, Mode.withSoft, mapOk, Update.soft, Update.firm]
+    exact decide_eq_true (by omega)
+
+theorem executeFirm_fetch (s : Sys) (h cel : Nat) (b : Blk) (heq : h = s.nextFirm)
+    (hS : s.cfg.seqStart ≤ h)
+    (hshould : shouldExecuteFirm s.nextFirm s.nextSoft s.cfg.mode = false)
+    (hlook : pendLookup (h - s.cfg.seqStart + s.cfg.rollupStart) s.ex.pending = none)
+    (hget : s.ru.getBlock (h - s.cfg.seqStart + s.cfg.rollupStart) = .ok b)
+    (hnum : b.number = h - s.cfg.seqStart + s.cfg.rollupStart)
+    (hsync : s.ru.c = s.ex.c) (hb : b ∈ s.ru.blocks) (hsoft : s.ex.c.soft ∈ s.ru.blocks)
+    (hbs : b.number ≤ s.ex.c.soft.number) (hfb : s.ex.c.firm.number ≤ b.number)
+    (hmap : s.cfg.rollupStart ≤ b.number + 1) :
+    executeFirm s h cel =
+      ({ s with
+          ru := { s.ru with c := ⟨b, s.ex.c.soft, cel⟩ },
+          ex := { s.ex with c := ⟨b, s.ex.c.soft, cel⟩ } },
+       ⟨.ok, [.get (h - s.cfg.seqStart + s.cfg.rollupStart) (.ok b), .update b s.ex.c.soft cel (.ok ())]⟩) := by
+  unfold executeFirm
+  simp only
+  rw [if_neg (by omega)]
+  have hmapS : seqToRollup s.cfg h = some (h - s.cfg.seqStart + s.cfg.rollupStart) := by
+    unfold seqToRollup; rw [if_neg (by omega)]
+  rw [hmapS]
+  simp only [hshould, Bool.false_eq_true, if_false, hlook, hget]
+  rw [if_neg (by omega)]
+  rw [updateCommitment_ok _ (.onlyFirm b cel)]
+  · simp [Update.firm, Update.soft, Update.cel]
+  · simp [Update.firm, hb]
+  · simp [Update.soft, hsoft]
+  · simp [Update.firm, Update.soft, hbs]
+  · simp [Update.firm, hsync, hfb]
+  · simp [Update.soft, hsync]
+  · simp [stateAccepts, Update.level, Mode.withFirm, Mode.withSoft, mapOk, Update.soft, Update.firm]
+    exact decide_eq_true (by omega)
+
+/-- The simulation relation between the executor-plus-rollup model and the acceptor. -/
+structure SimInv (cfg : Cfg) (s : Sys) (m : Mon) : Prop where
+  cfg_eq : s.cfg = cfg
+  ex_c : s.ex.c = m.c
+  ru_c : s.ru.c = m.c
+  blocks : s.ru.blocks = m.known
+  head : m.head = m.c.soft
+  next : m.next = nextSeq cfg m.c.soft.number
+  start : cfg.rollupStart ≤ m.c.firm.number + 1
+  fs : m.c.firm.number ≤ m.c.soft.number
+  known_hd : ∃ rest, m.known = m.c.soft :: rest
+  chain : ChainOk m.known
+  firm_in : m.c.firm ∈ m.known
+  seq_ok : ∀ b ∈ m.known, b.seq + cfg.rollupStart = cfg.seqStart + b.number
+  ids : ∀ b ∈ m.known, b.id < s.ru.nextId
+  pend : ∀ k b, pendLookup k s.ex.pending = some b → b ∈ m.known ∧ b.number = k
+  firmOnly : cfg.mode = .firmOnly → m.c.firm = m.c.soft
+
+theorem initBlocksAux_head (cfg : Cfg) (k : Nat) :
+    ∃ rest, initBlocksAux cfg k = ⟨cfg.firm0 + k, k + 1, k, nextSeq cfg (cfg.firm0 + k) - 1⟩ :: rest := by
+  cases k with
+  | zero => exact ⟨[], rfl⟩
+  | succ k => exact ⟨initBlocksAux cfg k, rfl⟩
+
+theorem initBlocksAux_chain (cfg : Cfg) (k : Nat) : ChainOk (initBlocksAux cfg k) := by
+  induction k with
+  | zero => simp [initBlocksAux, ChainOk]
+  | succ k ih =>
+    obtain ⟨rest, hr⟩ := initBlocksAux_head cfg k
+    simp only [initBlocksAux]
+    rw [hr] at ih ⊢
+    exact ⟨by simp, ih⟩
+
+theorem initBlocksAux_mem (cfg : Cfg) (k : Nat) :
+    ∀ b ∈ initBlocksAux cfg k, cfg.firm0 ≤ b.number ∧ b.seq = nextSeq cfg b.number - 1 ∧ b.id ≤ k + 1 := by
+  induction k with
+  | zero => intro b hb; simp [initBlocksAux] at hb; subst hb; simp
+  | succ k ih =>
+    intro b hb
+    simp only [initBlocksAux, List.mem_cons] at hb
+    rcases hb with hb | hb
+    · subst hb; simp; omega
+    · obtain ⟨h1, h2, h3⟩ := ih b hb
+      exact ⟨h1, h2, by omega⟩
+
+theorem initFirm_mem (cfg : Cfg) (k : Nat) : initFirm cfg ∈ initBlocksAux cfg k := by
+  induction k with
+  | zero => simp [initBlocksAux, initFirm]
+  | succ k ih => simp only [initBlocksAux, List.mem_cons]; right; exact ih
+
+theorem simInv_init (cfg : Cfg) (hwf : cfg.WF) : SimInv cfg (Sys.init cfg) (Mon.init cfg) := by
+  obtain ⟨h1, h2, h3, h4⟩ := hwf
+  have hsoft : cfg.firm0 + (cfg.soft0 - cfg.firm0) = cfg.soft0 := by omega
+  constructor
+  · rfl
+  · rfl
+  · rfl
+  · rfl
+  · rfl
+  · simp only [Mon.init, initCommit, initSoft, hsoft]
+  · simp only [Mon.init, initCommit, initFirm]; omega
+  · simp only [Mon.init, initCommit, initFirm, initSoft]; omega
+  · obtain ⟨rest, hr⟩ := initBlocksAux_head cfg (cfg.soft0 - cfg.firm0)
+    exact ⟨rest, by simp only [Mon.init, initBlocks, initCommit, initSoft]; rw [hr]⟩
+  · exact initBlocksAux_chain cfg _
+  · exact initFirm_mem cfg _
+  · intro b hb
+    obtain ⟨hb1, hb2, _⟩ := initBlocksAux_mem cfg _ b hb
+    rw [hb2]; unfold nextSeq; omega
+  · intro b hb
+    obtain ⟨_, _, hb3⟩ := initBlocksAux_mem cfg _ b hb
+    simp only [Sys.init, Rollup.init]; omega
+  · intro k b hl; simp [Sys.init, pendLookup] at hl
+  · intro hm
+    have := h4 hm
+    simp only [Mon.init, initCommit, initFirm, initSoft]
+    have h0 : cfg.soft0 - cfg.firm0 = 0 := by omega
+    simp [h0]
+
+
+theorem step_sim_soft (cfg : Cfg) (s : Sys) (m : Mon) (h : Nat) (hi : SimInv cfg s m)
+    (hadm : cfg.mode.withSoft = true) :
+    ∃ m', m.stepEvent cfg ⟨.soft h, (executeSoft s h).2.res, (executeSoft s h).2.rpcs⟩ = some m'
+      ∧ SimInv cfg (executeSoft s h).1 m' := by
+  have hnext : s.nextSoft = m.next := by
+    simp only [Sys.nextSoft, hi.cfg_eq, hi.ex_c, hi.next]
+  by_cases hlt : h < m.next
+  · have hev : executeSoft s h = (s, ⟨.dropped, []⟩) := by
+      unfold executeSoft; simp only; rw [if_pos (by omega)]
+    rw [hev]
+    exact ⟨m, by simp [Mon.stepEvent, hlt], hi⟩
+  · by_cases hgt : h > m.next
+    · have hev : executeSoft s h = (s, ⟨.err .outOfOrder, []⟩) := by
+        unfold executeSoft; simp only; rw [if_neg (by omega), if_pos (by omega)]
+      rw [hev]
+      exact ⟨m, by simp [Mon.stepEvent, hlt, hgt, Outcome.isErr], hi⟩
+    · have heq : h = m.next := by omega
+      have hstart := hi.start
+      have hfs := hi.fs
+      have hn := hi.next
+      unfold nextSeq at hn
+      have hev := executeSoft_inorder s h (by omega)
+        (by rw [hi.cfg_eq]; omega) (by rw [hi.ru_c, hi.ex_c])
+        (by rw [hi.ex_c, hi.blocks]; exact hi.firm_in) (by rw [hi.ex_c]; exact hfs)
+        (by rw [hi.cfg_eq, hi.ex_c]; omega)
+      rw [hev]
+      simp only [hi.ex_c, hi.blocks, hi.cfg_eq]
+      refine ⟨{ known := ⟨m.c.soft.number + 1, s.ru.nextId, m.c.soft.id, h⟩ :: m.known,
+                head := ⟨m.c.soft.number + 1, s.ru.nextId, m.c.soft.id, h⟩,
+                c := ⟨m.c.firm, ⟨m.c.soft.number + 1, s.ru.nextId, m.c.soft.id, h⟩, m.c.cel⟩,
+                next := m.next + 1 }, ?_, ?_⟩
+      · simp only [Mon.stepEvent]
+        rw [if_neg hlt, if_neg hgt]
+        simp only [and_self, if_true, Mon.stepRpcs, Mon.stepRpc]
+        rw [if_pos ⟨heq, by rw [hi.head], hi.head, by rw [hi.head], trivial, trivial,
+          fun k hk => Nat.ne_of_lt (hi.ids k hk)⟩]
+        simp only [Option.bind_some]
+        rw [if_pos ⟨List.mem_cons_of_mem _ hi.firm_in, trivial, by omega, Nat.le_refl _, by omega⟩]
+        rfl
+      · obtain ⟨rest, hrest⟩ := hi.known_hd
+        constructor
+        · rfl
+        · rfl
+        · rfl
+        · rfl
+        · rfl
+        · simp only; unfold nextSeq; omega
+        · exact hstart
+        · simp only; omega
+        · exact ⟨m.known, rfl⟩
+        · show ChainOk (_ :: m.known)
+          rw [hrest]; exact ⟨rfl, by rw [← hrest]; exact hi.chain⟩
+        · exact List.mem_cons_of_mem _ hi.firm_in
+        · intro b hb
+          simp only [List.mem_cons] at hb
+          rcases hb with hb | hb
+          · subst hb; simp only; omega
+          · exact hi.seq_ok b hb
+        · intro b hb
+          simp only [List.mem_cons] at hb
+          rcases hb with hb | hb
+          · subst hb; simp only; omega
+          · have := hi.ids b hb; simp only; omega
+        · intro k b hl
+          rcases pendLookup_insert _ _ _ _ _ hl with ⟨hk, hb⟩ | hl'
+          · subst hb; exact ⟨by simp, by simp only; omega⟩
+          · obtain ⟨h1, h2⟩ := hi.pend k b hl'
+            exact ⟨List.mem_cons_of_mem _ h1, h2⟩
+        · intro hm; rw [hm] at hadm; simp [Mode.withSoft] at hadm
+
+
+theorem step_sim_firm (cfg : Cfg) (s : Sys) (m : Mon) (h cel : Nat) (hi : SimInv cfg s m)
+    (hadm : cfg.mode.withFirm = true) :
+    ∃ m', m.stepEvent cfg ⟨.firm h cel, (executeFirm s h cel).2.res, (executeFirm s h cel).2.rpcs⟩ = some m'
+      ∧ SimInv cfg (executeFirm s h cel).1 m' := by
+  have hnextF : s.nextFirm = nextSeq cfg m.c.firm.number := by
+    simp only [Sys.nextFirm, hi.cfg_eq, hi.ex_c]
+  have hnextS : s.nextSoft = nextSeq cfg m.c.soft.number := by
+    simp only [Sys.nextSoft, hi.cfg_eq, hi.ex_c]
+  have hstart := hi.start
+  have hfs := hi.fs
+  obtain ⟨rest, hrest⟩ := hi.known_hd
+  by_cases hne : h ≠ nextSeq cfg m.c.firm.number
+  · have hev : executeFirm s h cel = (s, ⟨.err .heightMismatch, []⟩) := by
+      unfold executeFirm; simp only; rw [if_pos (by rw [hnextF]; exact hne)]
+    rw [hev]
+    exact ⟨m, by simp [Mon.stepEvent, hne, Outcome.isErr], hi⟩
+  · have heq : h = nextSeq cfg m.c.firm.number := by omega
+    have hhS : s.cfg.seqStart ≤ h := by rw [hi.cfg_eq, heq]; unfold nextSeq; omega
+    by_cases hcond : cfg.mode = .firmOnly ∨ m.c.firm.number = m.c.soft.number
+    · -- the block is executed
+      have hshould : shouldExecuteFirm s.nextFirm s.nextSoft s.cfg.mode = true := by
+        rw [hi.cfg_eq, hnextF, hnextS]
+        rcases hcond with hc | hc
+        · rw [hc]; rfl
+        · cases hm : cfg.mode with
+          | softOnly => rw [hm] at hadm; simp [Mode.withFirm] at hadm
+          | firmOnly => rfl
+          | softAndFirm => simp [shouldExecuteFirm, hc]
+      have hsame : m.c.firm = m.c.soft := by
+        rcases hcond with hc | hc
+        · exact hi.firmOnly hc
+        · have hin := hi.firm_in
+          rw [hrest] at hin
+          simp only [List.mem_cons] at hin
+          rcases hin with hin | hin
+          · exact hin
+          · have hch := hi.chain
+            rw [hrest] at hch
+            have := chainOk_lt _ _ hch _ hin
+            omega
+      have hn := hi.next
+      unfold nextSeq at hn heq
+      have hnumeq : m.c.firm.number = m.c.soft.number := by rw [hsame]
+      have hev := executeFirm_execute s h cel (by rw [hnextF]; unfold nextSeq; exact heq) hhS hshould
+        (by rw [hi.ru_c, hi.ex_c]) (by rw [hi.ex_c]; exact hsame) (by rw [hi.cfg_eq, hi.ex_c]; omega)
+      rw [hev]
+      simp only [hi.ex_c, hi.blocks, hi.cfg_eq]
+      refine ⟨{ known := ⟨m.c.soft.number + 1, s.ru.nextId, m.c.soft.id, h⟩ :: m.known,
+                head := ⟨m.c.soft.number + 1, s.ru.nextId, m.c.soft.id, h⟩,
+                c := ⟨⟨m.c.soft.number + 1, s.ru.nextId, m.c.soft.id, h⟩,
+                      ⟨m.c.soft.number + 1, s.ru.nextId, m.c.soft.id, h⟩, cel⟩,
+                next := m.next + 1 }, ?_, ?_⟩
+      · simp only [Mon.stepEvent]
+        rw [if_neg (by omega), if_pos hcond]
+        simp only [and_self, if_true, Mon.stepRpcs, Mon.stepRpc]
+        rw [if_pos ⟨by rw [hn, heq, hsame], by rw [hi.head], hi.head, by rw [hi.head], trivial, trivial,
+          fun k hk => Nat.ne_of_lt (hi.ids k hk)⟩]
+        simp only [Option.bind_some]
+        rw [if_pos ⟨List.mem_cons_self, trivial, Nat.le_refl _, by omega, by omega⟩]
+        rfl
+      · constructor
+        · rfl
+        · rfl
+        · rfl
+        · rfl
+        · rfl
+        · simp only; unfold nextSeq; omega
+        · simp only; omega
+        · simp only; omega
+        · exact ⟨m.known, rfl⟩
+        · show ChainOk (_ :: m.known)
+          rw [hrest]; exact ⟨rfl, by rw [← hrest]; exact hi.chain⟩
+        · exact List.mem_cons_self
+        · intro b hb
+          simp only [List.mem_cons] at hb
+          rcases hb with hb | hb
+          · subst hb; simp only; omega
+          · exact hi.seq_ok b hb
+        · intro b hb
+          simp only [List.mem_cons] at hb
+          rcases hb with hb | hb
+          · subst hb; simp only; omega
+          · have := hi.ids b hb; simp only; omega
+        · intro k b hl
+          obtain ⟨h1, h2⟩ := hi.pend k b hl
+          exact ⟨List.mem_cons_of_mem _ h1, h2⟩
+        · intro _; rfl
+    · -- nothing is executed: the firm commitment follows the soft chain
+      have hmode : cfg.mode = .softAndFirm := by
+        cases hm : cfg.mode with
+        | softOnly => rw [hm] at hadm; simp [Mode.withFirm] at hadm
+        | firmOnly => exact absurd (Or.inl hm) hcond
+        | softAndFirm => rfl
+      have hlt : m.c.firm.number < m.c.soft.number := by
+        have : m.c.firm.number ≠ m.c.soft.number := fun hh => hcond (Or.inr hh)
+        omega
+      have hshould : shouldExecuteFirm s.nextFirm s.nextSoft s.cfg.mode = false := by
+        rw [hi.cfg_eq, hnextF, hnextS, hmode]
+        simp only [shouldExecuteFirm, decide_eq_false_iff_not]
+        unfold nextSeq; omega
+      unfold nextSeq at heq
+      have hbn : h - s.cfg.seqStart + s.cfg.rollupStart = m.c.firm.number + 1 := by
+        rw [hi.cfg_eq]; omega
+      have hsoft_in : m.c.soft ∈ m.known := by rw [hrest]; exact List.mem_cons_self
+      -- the shape of the result is the same whether the block comes from the pending map or
+      -- from the rollup
+      have hfinish : ∀ (b : Blk) (pend' : List (Nat × Blk)) (pre : List Rpc),
+          b ∈ m.known → b.number = m.c.firm.number + 1 →
+          (∀ k b', pendLookup k pend' = some b' → b' ∈ m.known ∧ b'.number = k) →
+          (pre = [] ∨ pre = [.get b.number (.ok b)]) →
+          ∃ m', m.stepEvent cfg ⟨.firm h cel, .ok, pre ++ [.update b m.c.soft cel (.ok ())]⟩ = some m' ∧
+            SimInv cfg { cfg := cfg, ex := { c := ⟨b, m.c.soft, cel⟩, pending := pend' },
+                         ru := { blocks := m.known, c := ⟨b, m.c.soft, cel⟩, nextId := s.ru.nextId } } m' := by
+        intro b pend' pre hb hnum hpend hpre
+        have hseq := hi.seq_ok b hb
+        refine ⟨{ m with c := ⟨b, m.c.soft, cel⟩ }, ?_, ?_⟩
+        · simp only [Mon.stepEvent]
+          rw [if_neg (by unfold nextSeq; omega), if_neg hcond]
+          rcases hpre with hpre | hpre
+          · subst hpre
+            simp only [List.nil_append, Mon.stepRpcs, Mon.stepRpc]
+            rw [if_pos ⟨trivial, hnum, by omega, trivial⟩]
+            rw [if_pos ⟨hb, hi.head.symm, by omega, by omega, Nat.le_refl _⟩]
+            rfl
+          · subst hpre
+            simp only [List.cons_append, List.nil_append, Mon.stepRpcs, Mon.stepRpc]
+            rw [if_pos ⟨trivial, hnum, by omega, trivial, trivial, trivial⟩]
+            rw [if_pos ⟨hb, trivial⟩]
+            simp only [Option.bind_some]
+            rw [if_pos ⟨hb, hi.head.symm, by omega, by omega, Nat.le_refl _⟩]
+            rfl
+        · constructor
+          · rfl
+          · rfl
+          · rfl
+          · rfl
+          · exact hi.head
+          · exact hi.next
+          · simp only; omega
+          · simp only; omega
+          · exact ⟨rest, hrest⟩
+          · exact hi.chain
+          · exact hb
+          · exact hi.seq_ok
+          · exact hi.ids
+          · exact hpend
+          · intro hm; rw [hmode] at hm; exact absurd hm (by decide)
+      cases hl : pendLookup (h - s.cfg.seqStart + s.cfg.rollupStart) s.ex.pending with
+      | some b =>
+        obtain ⟨hb, hnum⟩ := hi.pend _ b hl
+        rw [hbn] at hnum
+        have hev := executeFirm_pending s h cel b (by rw [hnextF]; unfold nextSeq; exact heq) hhS hshould hl
+          (by rw [hi.ru_c, hi.ex_c]) (by rw [hi.blocks]; exact hb) (by rw [hi.ex_c, hi.blocks]; exact hsoft_in)
+          (by rw [hi.ex_c]; omega) (by rw [hi.ex_c]; omega) (by rw [hi.cfg_eq]; omega)
+        rw [hev]
+        simp only [hi.ex_c, hi.blocks, hi.cfg_eq]
+        have := hfinish b (pendErase (h - cfg.seqStart + cfg.rollupStart) s.ex.pending) [] hb hnum
+          (fun k b' hk => hi.pend k b' (pendLookup_erase _ _ _ _ hk)) (Or.inl rfl)
+        simpa using this
+      | none =>
+        have hch := hi.chain
+        rw [hrest] at hch
+        obtain ⟨z, hz, hzn⟩ := chainOk_exists _ _ hch m.c.firm (by rw [← hrest]; exact hi.firm_in)
+          (m.c.firm.number + 1) (by omega) (by omega)
+        rw [← hrest] at hz
+        cases hfind : m.known.find? (fun b => b.number = m.c.firm.number + 1) with
+        | none =>
+          rw [List.find?_eq_none] at hfind
+          exact absurd (by simpa using hzn) (hfind z hz)
+        | some b =>
+          have hb := List.mem_of_find?_eq_some hfind
+          have hnum : b.number = m.c.firm.number + 1 := by simpa using List.find?_some hfind
+          have hget : s.ru.getBlock (h - s.cfg.seqStart + s.cfg.rollupStart) = .ok b := by
+            unfold Rollup.getBlock
+            rw [hbn, hi.ru_c, if_neg (by omega), hi.blocks, hfind]
+          have hev := executeFirm_fetch s h cel b (by rw [hnextF]; unfold nextSeq; exact heq) hhS hshould hl
+            hget (by rw [hbn]; exact hnum)
+            (by rw [hi.ru_c, hi.ex_c]) (by rw [hi.blocks]; exact hb) (by rw [hi.ex_c, hi.blocks]; exact hsoft_in)
+            (by rw [hi.ex_c]; omega) (by rw [hi.ex_c]; omega) (by rw [hi.cfg_eq]; omega)
+          rw [hev]
+          rw [hbn]
+          simp only [hi.ex_c, hi.blocks, hi.cfg_eq]
+          have := hfinish b s.ex.pending [.get b.number (.ok b)] hb hnum hi.pend (Or.inr rfl)
+          rw [hnum] at this
+          simpa using this
+
+
+theorem step_sim (cfg : Cfg) (s : Sys) (m : Mon) (op : Op) (hi : SimInv cfg s m)
+    (hadm : op.admissible cfg.mode = true) :
+    ∃ m', m.stepEvent cfg ⟨op, (step s op).2.res, (step s op).2.rpcs⟩ = some m'
+      ∧ SimInv cfg (step s op).1 m' := by
+  cases op with
+  | soft h => exact step_sim_soft cfg s m h hi hadm
+  | firm h cel => exact step_sim_firm cfg s m h cel hi hadm
+
+theorem runFrom_accepted (cfg : Cfg) (s : Sys) (m : Mon) (ops : List Op) (hi : SimInv cfg s m)
+    (hadm : ∀ op ∈ ops, op.admissible cfg.mode = true) :
+    ∃ m', m.stepEvents cfg (runFrom s ops).2 = some m' ∧ SimInv cfg (runFrom s ops).1 m' := by
+  induction ops generalizing s m with
+  | nil => exact ⟨m, rfl, hi⟩
+  | cons op ops ih =>
+    obtain ⟨m1, h1, hi1⟩ := step_sim cfg s m op hi (hadm op (by simp))
+    obtain ⟨m2, h2, hi2⟩ := ih (step s op).1 m1 hi1 (fun o ho => hadm o (by simp [ho]))
+    refine ⟨m2, ?_, ?_⟩
+    · simp only [runFrom, Mon.stepEvents, h1, Option.bind_some]
+      exact h2
+    · simpa only [runFrom] using hi2
+
+/-- (B) For every well-formed session and every sequence of deliveries the readers can make, the
+    history produced by the executor model is accepted. -/
+theorem model_accepted (cfg : Cfg) (hwf : cfg.WF) (ops : List Op)
+    (hadm : ∀ op ∈ ops, op.admissible cfg.mode = true) : Accepted cfg (run cfg ops).2 := by
+  obtain ⟨m', h, _⟩ := runFrom_accepted cfg (Sys.init cfg) (Mon.init cfg) ops (simInv_init cfg hwf) hadm
+  unfold Accepted run
+  rw [h]; rfl
+
+/-- The events of a run are the deliveries, in order. -/
+theorem runFrom_ops (s : Sys) (ops : List Op) : (runFrom s ops).2.map (·.op) = ops := by
+  induction ops generalizing s with
+  | nil => rfl
+  | cons op ops ih => simp only [runFrom, List.map_cons, ih]
+
+/-- The event loop over pre-filled channels is one particular delivery sequence: replaying the
+    deliveries it made, in its order, through `runFrom` gives the same final state and events. -/
+theorem runLoop_is_run (s : Sys) (fl : List (Nat × Nat)) (sl : List Nat) :
+    runFrom s ((runLoop s fl sl).2.2.1.map (·.op)) = ((runLoop s fl sl).1, (runLoop s fl sl).2.2.1) := by
+  fun_induction runLoop s fl sl with
+  | case1 s h c fs ss s1 o hso ev herr =>
+    simp [runFrom, step, hso, ev]
+  | case2 s h c fs ss s1 o hso ev herr s2 r evs lf ls hrec ih =>
+    rw [hrec] at ih
+    simp only at ih
+    simp only [ev, List.map_cons, runFrom, step, hso, ih]
+  | case3 s h ss hsp => simp [runFrom]
+  | case4 s h ss hsp s1 o hso ev herr =>
+    simp [runFrom, step, hso, ev]
+  | case5 s h ss hsp s1 o hso ev herr s2 r evs lf ls hrec ih =>
+    rw [hrec] at ih
+    simp only at ih
+    simp only [ev, List.map_cons, runFrom, step, hso, ih]
+  | case6 s => simp [runFrom]
+
+/-! ## Part C: deliveries that are not the expected height change nothing (any state) -/
+
+theorem soft_unexpected_noop (s : Sys) (h : Nat) (hne : h ≠ s.nextSoft) :
+    executeSoft s h = (s, ⟨if h < s.nextSoft then .dropped else .err .outOfOrder, []⟩) := by
+  unfold executeSoft
+  simp only
+  by_cases hlt : h < s.nextSoft
+  · rw [if_pos hlt, if_pos hlt]
+  · rw [if_neg hlt, if_pos (by omega), if_neg hlt]
+
+theorem firm_unexpected_noop (s : Sys) (h cel : Nat) (hne : h ≠ s.nextFirm) :
+    executeFirm s h cel = (s, ⟨.err .heightMismatch, []⟩) := by
+  unfold executeFirm
+  simp only
+  rw [if_pos hne]
+
+/-! ## Part D: `BlockCache` -/
+
+/-- Every block in the cache is at or above the next height. -/
+def Cache.Inv (c : Cache) : Prop := ∀ e ∈ c.inner, c.next ≤ e.1
+
+theorem cacheLookup_mem (k : Nat) (l : List (Nat × Nat)) (v : Nat) (h : cacheLookup k l = some v) :
+    (k, v) ∈ l := by
+  induction l with
+  | nil => simp [cacheLookup] at h
+  | cons e rest ih =>
+    obtain ⟨k', v'⟩ := e
+    simp only [cacheLookup] at h
+    split at h
+    · rename_i hk; injection h with h; subst hk; subst h; simp
+    · exact List.mem_cons_of_mem _ (ih h)
+
+theorem cache_step_inv (c : Cache) (op : COp) (hi : c.Inv) : (c.step op).1.Inv := by
+  cases op with
+  | insert h tag =>
+    simp only [Cache.step, Cache.insert]
+    split
+    · rename_i c' heq
+      split at heq
+      · simp at heq
+      · split at heq
+        · simp at heq
+        · injection heq with heq; subst heq
+          intro e he
+          simp only [List.mem_cons] at he
+          rcases he with he | he
+          · subst he; simp only; omega
+          · exact hi e he
+    · exact hi
+  | pop =>
+    simp only [Cache.step, Cache.pop]
+    split
+    · rename_i h tag c' heq
+      split at heq
+      · simp at heq
+      · injection heq with h1 h2; subst h2
+        intro e he
+        simp only [List.mem_filter, decide_eq_true_eq] at he
+        have := hi e he.1
+        simp only; omega
+    · rename_i c' heq
+      split at heq
+      · injection heq with h1 h2; subst h2; exact hi
+      · simp at heq
+  | dropObsolete h =>
+    simp only [Cache.step, Cache.dropObsolete]
+    intro e he
+    simp only [List.mem_filter, decide_eq_true_eq] at he
+    have := hi e he.1
+    simp only; omega
+
+/-- One cache operation: the next height never decreases; a pop hands out exactly the block at
+    the next height and advances it by one; nothing else moves it except `drop_obsolete`. -/
+theorem cache_step_next (c : Cache) (op : COp) :
+    c.next ≤ (c.step op).1.next ∧
+    (∀ h tag, (c.step op).2 = .popped h tag → h = c.next ∧ (c.step op).1.next = c.next + 1
+        ∧ (h, tag) ∈ c.inner) ∧
+    ((∀ h, op ≠ .dropObsolete h) → (∀ h tag, (c.step op).2 ≠ .popped h tag) →
+        (c.step op).1.next = c.next) := by
+  cases op with
+  | insert h tag =>
+    simp only [Cache.step]
+    cases hins : c.insert h tag with
+    | error e => simp
+    | ok c' =>
+      simp only [Cache.insert] at hins
+      split at hins
+      · simp at hins
+      · split at hins
+        · simp at hins
+        · injection hins with hins; subst hins; simp
+  | pop =>
+    simp only [Cache.step, Cache.pop]
+    cases hl : cacheLookup c.next c.inner with
+    | none => simp
+    | some tag =>
+      simp only
+      refine ⟨by omega, ?_, ?_⟩
+      · intro h t heq
+        injection heq with h1 h2
+        subst h1; subst h2
+        exact ⟨by trivial, by trivial, cacheLookup_mem _ _ _ hl⟩
+      · intro _ hno
+        exact absurd rfl (hno c.next tag)
+  | dropObsolete h =>
+    simp only [Cache.step, Cache.dropObsolete]
+    refine ⟨by omega, by simp, ?_⟩
+    intro hno
+    exact absurd rfl (hno h)
+
+def COp.isDrop : COp → Bool
+  | .dropObsolete _ => true
+  | _ => false
+
+/-- (D) For every sequence of `insert` / `pop` / `drop_obsolete` on a cache: the heights handed
+    out by `pop` are strictly increasing, none is below the starting next height, and the next
+    height never decreases. -/
+theorem cache_run_increasing (c : Cache) (ops : List COp) :
+    (poppedHeights (c.run ops).2).Pairwise (· < ·) ∧
+    (∀ h ∈ poppedHeights (c.run ops).2, c.next ≤ h) ∧
+    c.next ≤ (c.run ops).1.next := by
+  induction ops generalizing c with
+  | nil => simp [Cache.run, poppedHeights]
+  | cons op ops ih =>
+    obtain ⟨h1, h2, _⟩ := cache_step_next c op
+    obtain ⟨i1, i2, i3⟩ := ih (c.step op).1
+    simp only [Cache.run]
+    cases hout : (c.step op).2 with
+    | popped h tag =>
+      obtain ⟨e1, e2, _⟩ := h2 h tag hout
+      simp only [poppedHeights, List.pairwise_cons, List.mem_cons]
+      refine ⟨⟨fun a ha => ?_, i1⟩, ?_, by omega⟩
+      · have := i2 a ha; omega
+      · intro a ha
+        rcases ha with ha | ha
+        · omega
+        · have := i2 a ha; omega
+    | inserted => simp only [poppedHeights]; exact ⟨i1, fun a ha => by have := i2 a ha; omega, by omega⟩
+    | insertErr e => simp only [poppedHeights]; exact ⟨i1, fun a ha => by have := i2 a ha; omega, by omega⟩
+    | empty => simp only [poppedHeights]; exact ⟨i1, fun a ha => by have := i2 a ha; omega, by omega⟩
+    | dropped => simp only [poppedHeights]; exact ⟨i1, fun a ha => by have := i2 a ha; omega, by omega⟩
+
+/-- (D') Without `drop_obsolete` in between, `pop` yields exactly `next, next+1, next+2, …`. -/
+theorem cache_run_sequential (c : Cache) (ops : List COp) (hnd : ∀ op ∈ ops, op.isDrop = false) :
+    poppedHeights (c.run ops).2 = List.range' c.next (poppedHeights (c.run ops).2).length := by
+  induction ops generalizing c with
+  | nil => simp [Cache.run, poppedHeights]
+  | cons op ops ih =>
+    obtain ⟨_, h2, h3⟩ := cache_step_next c op
+    have ih' := ih (c.step op).1 (fun o ho => hnd o (by simp [ho]))
+    have hop : ∀ h, op ≠ .dropObsolete h := by
+      intro h hh
+      have := hnd op (by simp)
+      rw [hh] at this
+      simp [COp.isDrop] at this
+    simp only [Cache.run]
+    cases hout : (c.step op).2 with
+    | popped h tag =>
+      obtain ⟨e1, e2, _⟩ := h2 h tag hout
+      simp only [poppedHeights, List.length_cons, List.range'_succ]
+      rw [e1, ← e2]
+      congr 1
+    | inserted =>
+      simp only [poppedHeights]
+      rw [← h3 hop (by intro h t; rw [hout]; simp)]; exact ih'
+    | insertErr e =>
+      simp only [poppedHeights]
+      rw [← h3 hop (by intro h t; rw [hout]; simp)]; exact ih'
+    | empty =>
+      simp only [poppedHeights]
+      rw [← h3 hop (by intro h t; rw [hout]; simp)]; exact ih'
+    | dropped =>
+      simp only [poppedHeights]
+      rw [← h3 hop (by intro h t; rw [hout]; simp)]; exact ih'
+
+/-- (D'') Blocks below the next height are refused; a height is never held twice. -/
+theorem cache_insert_refuses (c : Cache) (h tag : Nat) :
+    (h < c.next → c.insert h tag = .error .old) ∧
+    (∀ t, (h, t) ∈ c.inner → c.next ≤ h → ∃ e, c.insert h tag = .error e) := by
+  constructor
+  · intro hlt; simp [Cache.insert, hlt]
+  · intro t ht hge
+    simp only [Cache.insert]
+    rw [if_neg (by omega)]
+    cases hl : cacheLookup h c.inner with
+    | some v => exact ⟨_, rfl⟩
+    | none =>
+      exfalso
+      clear hge
+      generalize c.inner = l at ht hl
+      induction l with
+      | nil => simp at ht
+      | cons e rest ih =>
+        obtain ⟨k', v'⟩ := e
+        simp only [cacheLookup] at hl
+        split at hl
+        · simp at hl
+        · rename_i hne
+          simp only [List.mem_cons, Prod.mk.injEq] at ht
+          rcases ht with ⟨hk, _⟩ | ht
+          · exact hne hk
+          · exact ih ht hl
 
 end Astria.Conductor
